@@ -50,9 +50,27 @@ def method_models():
     }
 
 
+def _sizes(ev, o, node):
+    """Symbolic extent of every current dimension, computed from the lineage (pre-padding, slices, renames)."""
+    if o.name == "CONCAT":
+        raise Unmodelled("size of a concatenation", node)
+    st = interpret(o, FACE, axis_of_dim)
+    out = {}
+    for d in o.attrs.get("dims", ()):
+        if d == FACE:
+            out[d] = o.attrs.get("n_faces", 2)
+        elif d in st.names:
+            phys = st.names[d]
+            # only the horizontal dimensions have the modelled extent n (+ pre-padding); any other one has its own unknown length
+            out[d] = st.sel[phys].count if axis_of_dim(phys) is not None else Lin.sym("len_" + getattr(phys, "name", str(phys)))
+    return out
+
+
 def attr_models():
     m = da_attr_models()
     m[("DataArray", "coords")] = lambda ev, o, n: Obj("Coords", "coords", (), {"of": o})
+    m[("DataArray", "sizes")] = _sizes
+    m[("DataArray", "shape")] = lambda ev, o, n: tuple(_sizes(ev, o, n)[d] for d in o.attrs.get("dims", ()))
     return m
 
 
